@@ -51,7 +51,9 @@ fn main() {
     print!("{}", units::tables::generate());
     return;
   }
-  silence_panics();
+  if std::env::var("AGV_SHOW_PANIC").is_err() {
+    silence_panics();
+  }
   if unit == "replay" {
     use std::io::BufRead;
     for line in std::io::stdin().lock().lines() {
